@@ -200,6 +200,8 @@ def deep_clone(v):
     """Rust's Clone on the modelled containers (host objects are shared: they are immutable values or deliberate references)"""
     if isinstance(v, dict):
         return dict((k, deep_clone(x)) for k, x in v.items())
+    if hasattr(v, 'mr_clone'):
+        return v.mr_clone()
     if isinstance(v, Deque):
         return Deque([deep_clone(x) for x in v], v.split)
     if isinstance(v, list):
@@ -1280,6 +1282,9 @@ class Interp:
             c_ = self.ev(l, env)
             if isinstance(c_, Cell):
                 c_.set(v if op is None else op(c_.get(), v))
+                return
+            if hasattr(c_, 'mr_assign'):
+                c_.mr_assign(v if op is None else op(c_, v))
                 return
             if isinstance(c_, dict) and isinstance(v, dict) and op is None:
                 nv_ = dict(v)
